@@ -268,6 +268,27 @@ def check_raw_readers(rep, fx):
         else:
             rep.add('C04.R3', key, True, how, fn, hits[0][1], nontrivial=False)
     rep.floor('C04.R3 functions naming the buffer', n, 5)
+    # slice() answers None for a value that does not sit on byte boundaries of its buffer - a fact about storage.  A caller
+    # may use it as a fast path, never as a verdict: turning that None into an error makes an operation fail for one of two
+    # equal values (the copying path bytestr() / iter8 serves both)
+    n_s = 0
+    for fn in sorted(fx.fns):
+        f = fx.fns[fn]
+        for bb, t in f.calls():
+            c = callee_of(t) or ''
+            if not (c.endswith('::ok_or_else') or c.endswith('::ok_or') or c.endswith('Option::<T>::expect')) or not t['args']:
+                continue
+            e = f.expr_of_operand(t['args'][0])
+            if not any(isinstance(x, tuple) and x[0] == 'call' and x[1] == 'bitstr::Bitstr::slice' for x in expr_walk(e)):
+                continue
+            n_s += 1
+            fs = guard_facts(f, bb)
+            guarded = any(str(op).startswith('Call:') and 'is_u8_slice' in str(op) and b is True for (op, a, b) in fs)
+            rep.add('C04.R3', 'C04.R3:slice-none-is-an-error:%s' % fn, guarded,
+                    'only under is_u8_slice()' if guarded else
+                    '%s turns `slice() == None` into an error: the operation works for a value that happens to be byte-aligned in its '
+                    'buffer and fails for an equal value that is not (`|0aabbcc| open-bitstr 4 bits drop |bb| find`)' % short(fn), fn, t.get('at'))
+    rep.add('C04.R3', 'C04.R3:slice-none-callers-counted', True, '%d places map slice() == None to an error' % n_s, None, None, nontrivial=False)
 
 
 def _unconditional(f, bb, dom):
